@@ -1,2 +1,924 @@
-// stub created by the lead so that the workspace always loads; replace it with the check
-fn main() {}
+//! C13 — updates and signed-only transfers require a valid, timely TSIG.
+//!
+//! E-FAULT. Honest requests (3 UPDATEs that change the zone, 1 AXFR) are signed by the real
+//! client-side signer (`Message::finalize`); every mutant of their bytes (every single-bit flip,
+//! byte substitutions, every truncation, extensions, section-count edits, structural TSIG edits
+//! re-encoded with the original MAC, MACs recomputed the wrong way) x server clock x configured
+//! key set x AXFR policy is sent through the real `Catalog` to a real `SqliteZoneHandler`.
+//!
+//! Oracle ("only if"): the request may take effect (zone changed / AXFR answer records) ONLY IF
+//! the independent reference verifier `vref::tsig` (RFC 8945 4.3.3 digest rebuilt from the raw
+//! mutated bytes, HMAC via ring, |now - time signed| <= fudge in exact arithmetic) accepts those
+//! bytes under the configured keys. Accepted requests: the reply carries a TSIG that the
+//! reference verifies and the client-side `TSigVerifier` accepts; every mutated reply is rejected
+//! by a fresh `TSigVerifier` unless the reference accepts it too. No panic on either side.
+
+use std::collections::HashMap;
+
+use hickory_net::xfer::Protocol;
+use hickory_proto::op::Message;
+use hickory_proto::rr::rdata::tsig::TsigAlgorithm;
+use hickory_proto::rr::{RecordType, TSigner};
+use hickory_server::zone_handler::AxfrPolicy;
+use serde_json::{json, Value};
+use vcore::{catch, hex, Ctx, Local};
+use vref::tsig::{self as rt, Alg, Key};
+use vref::update as ru;
+use vref::wire;
+use vupd::{a, empty, ns, soa, txt, Env, EnvOpts, Msg, RecordMap, Snap};
+
+// ------------------------------------------------------------------------------------------
+// honest requests
+
+#[derive(Clone, Copy, Debug, PartialEq, Eq, Hash)]
+enum Kind {
+    UpdAdd,
+    UpdDelName,
+    UpdPrereq,
+    Axfr,
+}
+
+impl Kind {
+    fn name(self) -> &'static str {
+        match self {
+            Kind::UpdAdd => "update:add-A",
+            Kind::UpdDelName => "update:delete-name",
+            Kind::UpdPrereq => "update:2-prerequisites+add",
+            Kind::Axfr => "axfr",
+        }
+    }
+    fn from_name(s: &str) -> Kind {
+        match s {
+            "update:add-A" => Kind::UpdAdd,
+            "update:delete-name" => Kind::UpdDelName,
+            "update:2-prerequisites+add" => Kind::UpdPrereq,
+            _ => Kind::Axfr,
+        }
+    }
+    fn is_update(self) -> bool {
+        self != Kind::Axfr
+    }
+}
+
+fn alg_h(a: Alg) -> TsigAlgorithm {
+    match a {
+        Alg::Sha256 => TsigAlgorithm::HmacSha256,
+        Alg::Sha384 => TsigAlgorithm::HmacSha384,
+        Alg::Sha512 => TsigAlgorithm::HmacSha512,
+    }
+}
+
+fn alg_name(a: Alg) -> &'static str {
+    match a {
+        Alg::Sha256 => "sha256",
+        Alg::Sha384 => "sha384",
+        Alg::Sha512 => "sha512",
+    }
+}
+
+fn alg_from(s: &str) -> Alg {
+    match s {
+        "sha384" => Alg::Sha384,
+        "sha512" => Alg::Sha512,
+        _ => Alg::Sha256,
+    }
+}
+
+fn base_zone() -> Vec<vupd::Rr> {
+    vec![soa("z.", 60, 5, 1), ns("z.", 60, "n1.o."), a("a.z.", 60, 1)]
+}
+
+fn unsigned_message(kind: Kind) -> Message {
+    match kind {
+        Kind::UpdAdd => vupd::update_message(0x1234, &Msg { prereqs: vec![], updates: vec![a("b.z.", 60, 1)] }),
+        Kind::UpdDelName => vupd::update_message(0x1234, &Msg { prereqs: vec![], updates: vec![empty("a.z.", ru::T_ANY, ru::CLASS_ANY, 0)] }),
+        Kind::UpdPrereq => vupd::update_message(
+            0x1234,
+            &Msg { prereqs: vec![empty("a.z.", ru::T_A, ru::CLASS_ANY, 0), empty("b.z.", ru::T_ANY, ru::CLASS_NONE, 0)], updates: vec![txt("b.z.", 60, "t")] },
+        ),
+        Kind::Axfr => vupd::query_message(0x1234, "z.", RecordType::AXFR),
+    }
+}
+
+/// The honest request: signed by the real client-side signer with key k1.
+fn honest(kind: Kind, alg: Alg, fudge: u16, time: u64) -> Vec<u8> {
+    let signer = vupd::signer("k1.", vupd::KEY1, alg_h(alg), fudge);
+    let mut m = unsigned_message(kind);
+    m.finalize(&signer, time).expect("client-side signing");
+    m.to_vec().expect("encode")
+}
+
+fn client_verifier(kind: Kind, alg: Alg, fudge: u16, time: u64) -> hickory_proto::rr::TSigVerifier {
+    let signer = vupd::signer("k1.", vupd::KEY1, alg_h(alg), fudge);
+    let m = unsigned_message(kind);
+    signer.sign_message(&m, time).expect("sign").1.expect("verifier")
+}
+
+// ------------------------------------------------------------------------------------------
+// key sets (what the server is configured with)
+
+const KEYSETS: [&str; 5] = ["{k1}", "{k1,k2}", "{k2}", "{}", "{k1:other-alg}"];
+
+fn other_alg(a: Alg) -> Alg {
+    if a == Alg::Sha512 {
+        Alg::Sha256
+    } else {
+        Alg::Sha512
+    }
+}
+
+fn ref_keys(ks: usize, alg: Alg) -> Vec<Key> {
+    let k1 = Key::new("k1.", alg, vupd::KEY1);
+    let k2 = Key::new("k2.", Alg::Sha256, vupd::KEY2);
+    match ks {
+        0 => vec![k1],
+        1 => vec![k1, k2],
+        2 => vec![k2],
+        3 => vec![],
+        _ => vec![Key::new("k1.", other_alg(alg), vupd::KEY1)],
+    }
+}
+
+fn server_signers(ks: usize, alg: Alg) -> Vec<TSigner> {
+    ref_keys(ks, alg)
+        .iter()
+        .map(|k| {
+            let name = format!("{}.", String::from_utf8_lossy(&k.name[0]));
+            vupd::signer(&name, &k.secret, alg_h(k.alg), 300)
+        })
+        .collect()
+}
+
+// ------------------------------------------------------------------------------------------
+// mutants
+
+#[derive(Clone, Debug)]
+struct Mutant {
+    class: String,
+    bytes: Vec<u8>,
+}
+
+/// Byte regions of a signed message (for stable, coarse mutation classes).
+struct Regions {
+    /// (start, end, name), ascending
+    spans: Vec<(usize, usize, &'static str)>,
+}
+
+impl Regions {
+    fn of(msg: &[u8]) -> Regions {
+        let s = rt::split(msg).expect("honest message splits");
+        let w = &s.walk;
+        let mut spans = vec![(0, 2, "header.id"), (2, 4, "header.flags"), (4, 6, "header.qdcount"), (6, 8, "header.ancount"), (8, 10, "header.nscount"), (10, 12, "header.arcount")];
+        for q in &w.questions {
+            spans.push((q.start, q.end, "question"));
+        }
+        for r in w.answers.iter().chain(w.authorities.iter()) {
+            spans.push((r.start, r.end, "body-record"));
+        }
+        for r in &w.additionals[..w.additionals.len() - 1] {
+            spans.push((r.start, r.end, "additional-record"));
+        }
+        let t = w.additionals.last().unwrap();
+        let fixed = t.rdata_start - 10;
+        spans.push((t.start, fixed, "tsig.name"));
+        spans.push((fixed, fixed + 2, "tsig.type"));
+        spans.push((fixed + 2, fixed + 4, "tsig.class"));
+        spans.push((fixed + 4, fixed + 8, "tsig.ttl"));
+        spans.push((fixed + 8, fixed + 10, "tsig.rdlength"));
+        let (_, p) = wire::read_name(msg, t.rdata_start).unwrap();
+        spans.push((t.rdata_start, p, "tsig.algorithm"));
+        spans.push((p, p + 6, "tsig.time"));
+        spans.push((p + 6, p + 8, "tsig.fudge"));
+        spans.push((p + 8, p + 10, "tsig.mac-size"));
+        let ml = s.tsig.mac.len();
+        spans.push((p + 10, p + 10 + ml, "tsig.mac"));
+        spans.push((p + 10 + ml, p + 12 + ml, "tsig.original-id"));
+        spans.push((p + 12 + ml, p + 14 + ml, "tsig.error"));
+        spans.push((p + 14 + ml, p + 16 + ml, "tsig.other-len"));
+        spans.push((p + 16 + ml, t.end, "tsig.other-data"));
+        Regions { spans }
+    }
+    fn at(&self, off: usize) -> &'static str {
+        self.spans.iter().find(|(s, e, _)| *s <= off && off < *e).map(|x| x.2).unwrap_or("end")
+    }
+}
+
+fn flag_bit_name(byte: usize, bit: u8) -> &'static str {
+    match (byte, bit) {
+        (2, 7) => "qr",
+        (2, 3..=6) => "opcode",
+        (2, 2) => "aa",
+        (2, 1) => "tc",
+        (2, 0) => "rd",
+        (3, 7) => "ra",
+        (3, 6) => "z",
+        (3, 5) => "ad",
+        (3, 4) => "cd",
+        _ => "rcode",
+    }
+}
+
+fn byte_mutants(h: &[u8], out: &mut Vec<Mutant>) {
+    let reg = Regions::of(h);
+    for i in 0..h.len() {
+        for bit in 0..8u8 {
+            let mut b = h.to_vec();
+            b[i] ^= 1 << bit;
+            let r = reg.at(i);
+            let class = if r == "header.flags" { format!("bit-flip@header.flags.{}", flag_bit_name(i, bit)) } else { format!("bit-flip@{r}") };
+            out.push(Mutant { class, bytes: b });
+        }
+        for v in [0x00u8, 0x01, 0x7f, 0x80, 0xff] {
+            if h[i] != v {
+                let mut b = h.to_vec();
+                b[i] = v;
+                out.push(Mutant { class: format!("byte-sub@{}", reg.at(i)), bytes: b });
+            }
+        }
+    }
+    for n in 0..h.len() {
+        out.push(Mutant { class: format!("truncate@{}", reg.at(n)), bytes: h[..n].to_vec() });
+    }
+    for ext in [vec![0u8], vec![0xff], vec![0u8; 11]] {
+        let mut b = h.to_vec();
+        b.extend_from_slice(&ext);
+        out.push(Mutant { class: "extend:bytes-after-tsig".into(), bytes: b });
+    }
+    for (ci, name) in ["qdcount", "ancount", "nscount", "arcount"].iter().enumerate() {
+        let p = 4 + 2 * ci;
+        let cur = u16::from_be_bytes([h[p], h[p + 1]]);
+        for v in [cur.wrapping_sub(1), cur.wrapping_add(1), 0, 65535] {
+            if v != cur {
+                let mut b = h.to_vec();
+                b[p..p + 2].copy_from_slice(&v.to_be_bytes());
+                out.push(Mutant { class: format!("count-edit@{name}"), bytes: b });
+            }
+        }
+    }
+}
+
+fn a_record_wire(name: &str) -> Vec<u8> {
+    vupd::rr_wire(&a(name, 60, 9))
+}
+
+/// Structural TSIG edits (re-encoded with the ORIGINAL MAC) and MACs recomputed the wrong way.
+fn structural_mutants(h: &[u8], alg: Alg, fudge: u16, time: u64, out: &mut Vec<Mutant>) {
+    let s = rt::split(h).expect("honest splits");
+    let unsigned = rt::strip(h, &s);
+    let t0 = s.tsig.clone();
+    let mut edit = |class: &str, f: &dyn Fn(&mut rt::TsigRr)| {
+        let mut t = t0.clone();
+        f(&mut t);
+        out.push(Mutant { class: format!("tsig-edit:{class}"), bytes: rt::attach(&unsigned, &t) });
+    };
+    edit("key-name=k2(configured-elsewhere)", &|t| t.name = rt::labels_of("k2."));
+    edit("key-name=unknown", &|t| t.name = rt::labels_of("kx."));
+    edit("key-name=case-variant", &|t| t.name = vec![b"K1".to_vec()]);
+    edit("algorithm=hmac-sha1", &|t| t.alg_name = rt::labels_of("hmac-sha1."));
+    edit("algorithm=other-supported", &|t| t.alg_name = other_alg(alg).labels());
+    edit("algorithm=unknown", &|t| t.alg_name = rt::labels_of("hmac-foo."));
+    edit("algorithm=case-variant", &|t| t.alg_name = t.alg_name.iter().map(|l| l.to_ascii_uppercase()).collect());
+    for d in [1u64, fudge as u64, fudge as u64 + 1] {
+        if d == 0 {
+            continue;
+        }
+        edit("time-shifted", &|t| t.time = t.time.wrapping_add(d) & 0xffff_ffff_ffff);
+        edit("time-shifted", &|t| t.time = t.time.wrapping_sub(d) & 0xffff_ffff_ffff);
+    }
+    edit("fudge=0", &|t| t.fudge = 0);
+    edit("fudge=65535", &|t| t.fudge = 65535);
+    let full = t0.mac.len();
+    for n in 0..=full + 2 {
+        if n == full {
+            continue;
+        }
+        let class = if n < full { "mac-truncated" } else { "mac-extended" };
+        edit(class, &|t| {
+            t.mac.resize(n, 0);
+        });
+    }
+    edit("original-id+1", &|t| t.orig_id = t.orig_id.wrapping_add(1));
+    edit("original-id-1", &|t| t.orig_id = t.orig_id.wrapping_sub(1));
+    for e in [16u16, 17, 18] {
+        edit("error-set", &|t| t.error = e);
+    }
+    edit("other-data-added", &|t| t.other = vec![0, 0, 0x65, 0x53, 0xf1, 0x00]);
+    edit("rr-ttl=1", &|t| t.ttl = 1);
+    edit("rr-class=IN", &|t| t.class = 1);
+    // placement
+    {
+        // a record after the TSIG
+        let mut b = h.to_vec();
+        b.extend_from_slice(&a_record_wire("c.z."));
+        let ar = u16::from_be_bytes([b[10], b[11]]) + 1;
+        b[10..12].copy_from_slice(&ar.to_be_bytes());
+        out.push(Mutant { class: "tsig-placement:record-after-tsig".into(), bytes: b });
+        // a second TSIG
+        let mut b = h.to_vec();
+        b.extend_from_slice(&t0.encode());
+        let ar = u16::from_be_bytes([b[10], b[11]]) + 1;
+        b[10..12].copy_from_slice(&ar.to_be_bytes());
+        out.push(Mutant { class: "tsig-placement:second-tsig".into(), bytes: b });
+        // the TSIG counted as the last answer/prerequisite record instead of an additional one
+        let mut b = h.to_vec();
+        let ar = u16::from_be_bytes([b[10], b[11]]);
+        let ns_ = u16::from_be_bytes([b[8], b[9]]);
+        if ar == 1 {
+            b[10..12].copy_from_slice(&0u16.to_be_bytes());
+            b[8..10].copy_from_slice(&(ns_ + 1).to_be_bytes());
+            out.push(Mutant { class: "tsig-placement:tsig-in-authority-section".into(), bytes: b });
+        }
+        // no TSIG at all
+        out.push(Mutant { class: "unsigned:tsig-stripped".into(), bytes: unsigned.clone() });
+    }
+    // MAC recomputed
+    let k1 = Key::new("k1.", alg, vupd::KEY1);
+    let k2 = Key::new("k2.", Alg::Sha256, vupd::KEY2);
+    out.push(Mutant { class: "resigned:by-k2-as-k2".into(), bytes: rt::sign(&unsigned, &k2, &rt::labels_of("k2."), time, fudge, None) });
+    out.push(Mutant { class: "resigned:by-k2-claiming-k1".into(), bytes: rt::sign(&unsigned, &Key { name: rt::labels_of("k1."), ..k2.clone() }, &rt::labels_of("k1."), time, fudge, None) });
+    out.push(Mutant { class: "resigned:by-k1-with-response-style-mac-chaining".into(), bytes: rt::sign(&unsigned, &k1, &rt::labels_of("k1."), time, fudge, Some(&t0.mac)) });
+    out.push(Mutant { class: "resigned:by-k1-reference-signer(valid)".into(), bytes: rt::sign(&unsigned, &k1, &rt::labels_of("k1."), time, fudge, None) });
+    out.push(Mutant { class: "resigned:by-k1-key-name-upper-case(valid)".into(), bytes: rt::sign(&unsigned, &k1, &vec![b"K1".to_vec()], time, fudge, None) });
+}
+
+// ------------------------------------------------------------------------------------------
+// execution
+
+struct Worker {
+    rt: tokio::runtime::Runtime,
+    envs: HashMap<(usize, Alg, u8), (Env, RecordMap, Snap)>,
+    /// running digest of everything observed (determinism self-test)
+    dig: u64,
+}
+
+fn policy_of(p: u8) -> AxfrPolicy {
+    match p {
+        0 => AxfrPolicy::Deny,
+        1 => AxfrPolicy::AllowAll,
+        _ => AxfrPolicy::AllowSigned,
+    }
+}
+
+const POLICY_NAMES: [&str; 3] = ["Deny", "AllowAll", "AllowSigned"];
+
+impl Worker {
+    fn new() -> Worker {
+        Worker { rt: vsim::rt(), envs: HashMap::new(), dig: 0 }
+    }
+    fn ensure_env(&mut self, ks: usize, alg: Alg, policy: u8) {
+        if !self.envs.contains_key(&(ks, alg, policy)) {
+            let env = self.rt.block_on(Env::new(&base_zone(), EnvOpts { signers: server_signers(ks, alg), axfr: policy_of(policy), allow_update: true, journal: false }));
+            let saved = self.rt.block_on(env.save());
+            let snap = self.rt.block_on(env.snapshot());
+            self.envs.insert((ks, alg, policy), (env, saved, snap));
+        }
+    }
+}
+
+#[derive(Clone, Debug)]
+struct Obs {
+    panic: Option<(String, String)>,
+    replies: Option<Vec<Vec<u8>>>,
+    changed: bool,
+}
+
+fn run_request(w: &mut Worker, ks: usize, alg: Alg, policy: u8, now: u64, bytes: &[u8]) -> Obs {
+    w.ensure_env(ks, alg, policy);
+    vsim::set_unix(now);
+    let (env, saved, base) = w.envs.get(&(ks, alg, policy)).unwrap();
+    let rt = &w.rt;
+    let res = catch(|| rt.block_on(vsim::serve(&env.catalog, bytes, Protocol::Tcp)));
+    let post = rt.block_on(env.snapshot());
+    let changed = post != *base;
+    if changed {
+        rt.block_on(env.restore(saved));
+    }
+    match res {
+        Err(p) => Obs { panic: Some((p.msg, p.loc)), replies: None, changed },
+        Ok(r) => Obs { panic: None, replies: r, changed },
+    }
+}
+
+fn slug(s: &str) -> String {
+    let mut out = String::new();
+    for c in s.chars() {
+        if c.is_ascii_alphanumeric() {
+            out.push(c.to_ascii_lowercase());
+        } else if !out.ends_with('-') {
+            out.push('-');
+        }
+    }
+    out.trim_matches('-').chars().take(60).collect()
+}
+
+fn panic_key(side: &str, msg: &str, loc: &str) -> String {
+    let l = vcore::short_loc(loc);
+    let file = l.rfind(':').map(|i| l[..i].to_string()).unwrap_or(l);
+    if msg.contains("subtract with overflow") && file.ends_with("crates/proto/src/rr/tsig.rs") {
+        // `tsig.time - tsig.fudge` in TSigner::verify_message_byte
+        return "panic:tsig-time-minus-fudge-underflow".into();
+    }
+    format!("panic:{side}:{}@{}", slug(msg), file)
+}
+
+#[derive(Clone, Debug)]
+struct Case {
+    kind: Kind,
+    alg: Alg,
+    fudge: u16,
+    time: u64,
+    now: u64,
+    ks: usize,
+    policy: u8,
+    class: String,
+    bytes: Vec<u8>,
+}
+
+impl Case {
+    fn json(&self) -> Value {
+        json!({
+            "kind": self.kind.name(), "alg": alg_name(self.alg), "fudge": self.fudge, "time_signed": self.time, "server_now": self.now,
+            "now_minus_time_signed": self.now as i128 - self.time as i128,
+            "keyset": KEYSETS[self.ks], "keyset_index": self.ks, "axfr_policy": POLICY_NAMES[self.policy as usize], "policy_index": self.policy,
+            "mutation": self.class, "request_hex": hex::enc(&self.bytes),
+        })
+    }
+    fn from_json(v: &Value) -> Case {
+        Case {
+            kind: Kind::from_name(v["kind"].as_str().unwrap_or("")),
+            alg: alg_from(v["alg"].as_str().unwrap_or("")),
+            fudge: v["fudge"].as_u64().unwrap_or(300) as u16,
+            time: v["time_signed"].as_u64().unwrap_or(0),
+            now: v["server_now"].as_u64().unwrap_or(0),
+            ks: v["keyset_index"].as_u64().unwrap_or(0) as usize,
+            policy: v["policy_index"].as_u64().unwrap_or(2) as u8,
+            class: v["mutation"].as_str().unwrap_or("").to_string(),
+            bytes: hex::dec(v["request_hex"].as_str().unwrap_or("")).unwrap_or_default(),
+        }
+    }
+}
+
+fn is_plain(class: &str) -> bool {
+    class == "identity"
+}
+
+/// The part of a mutation class that goes into a finding key: the byte region for byte-level
+/// mutants (whatever the kind of edit), the edit itself for structural ones.
+fn key_scene(class: &str) -> String {
+    if let Some(i) = class.find('@') {
+        return format!("bytes-changed@{}", &class[i + 1..]);
+    }
+    match class {
+        "tsig-edit:rr-class=IN" => "bytes-changed@tsig.class".into(),
+        "tsig-edit:rr-ttl=1" => "bytes-changed@tsig.ttl".into(),
+        "extend:bytes-after-tsig" => "bytes-appended-after-tsig".into(),
+        c => c.to_string(),
+    }
+}
+
+/// Where the clock sits relative to the window (for keys and outcome classes).
+fn time_scene(now: u64, time: u64, fudge: u16) -> &'static str {
+    let d = now as i128 - time as i128;
+    let f = fudge as i128;
+    if d.abs() <= f {
+        "inside-window"
+    } else if d.abs() <= f + 2 {
+        "just-outside-window"
+    } else if d.abs() >= 1 << 15 {
+        "far-outside-window(>=2^15)"
+    } else {
+        "outside-window"
+    }
+}
+
+/// Execute one case and judge it. Returns the reply of an accepted exchange (for the reply side).
+fn run_case(w: &mut Worker, c: &Case, l: &mut Local) -> Option<(Vec<u8>, Vec<u8>)> {
+    l.eval();
+    let keys = ref_keys(c.ks, c.alg);
+    let verdict = rt::verify_request(&c.bytes, &keys, c.now);
+    let obs = run_request(w, c.ks, c.alg, c.policy, c.now, &c.bytes);
+    w.dig = vupd::digest(&(w.dig, obs.changed, &obs.replies, obs.panic.is_some()));
+    let scene = format!("{}:{}", if c.kind.is_update() { "update" } else { "axfr" }, c.class);
+    if let Some((msg, loc)) = &obs.panic {
+        l.violation(&panic_key("server", msg, loc), &format!("the server panicked on a {} request ({}; now - time signed = {}, fudge {}): {msg} at {}", c.kind.name(), c.class, c.now as i128 - c.time as i128, c.fudge, vcore::short_loc(loc)), || c.json());
+        return None;
+    }
+    // what is the mutated request, as far as an independent reader can tell?
+    let walk = wire::walk(&c.bytes).ok();
+    let opcode = walk.as_ref().map(|w| w.header.opcode());
+    let is_axfr = walk.as_ref().map(|w| w.header.opcode() == 0 && !w.header.qr() && w.questions.first().map(|q| q.qtype == 252).unwrap_or(false)).unwrap_or(false);
+    let answers: usize = obs.replies.iter().flatten().map(|r| wire::read_header(r).map(|h| h.an as usize).unwrap_or(0)).sum();
+    let parsed_tsig = rt::split(&c.bytes).is_ok();
+    if parsed_tsig {
+        l.nontrivial(vcore::fnv64(&c.bytes) ^ (c.ks as u64) << 56 ^ c.now.wrapping_mul(0x9e3779b97f4a7c15));
+    }
+    let accepted_by_ref = verdict.is_ok();
+    l.outcome(match (&verdict, obs.changed || (is_axfr && answers > 0 && c.policy == 2)) {
+        (Ok(_), true) => "reference-accepts:took-effect",
+        (Ok(_), false) => "reference-accepts:no-effect(allowed)",
+        (Err(_), false) => "reference-rejects:no-effect",
+        (Err(_), true) => "reference-rejects:TOOK-EFFECT",
+    });
+    if let Err(r) = &verdict {
+        l.outcome(&format!(
+            "ref:{}",
+            match r {
+                rt::Reject::Malformed(_) => "malformed",
+                rt::Reject::NoTrailingTsig => "no-trailing-tsig",
+                rt::Reject::MisplacedTsig => "misplaced-tsig",
+                rt::Reject::BadTsigRdata => "bad-tsig-rdata",
+                rt::Reject::BadKey => "bad-key",
+                rt::Reject::MacLength(_) => "mac-length",
+                rt::Reject::BadSig => "bad-sig",
+                rt::Reject::BadTime => "bad-time",
+            }
+        ));
+    }
+    let why = || format!("reference verifier: {:?}; keys configured {}; now - time signed = {}, fudge {}", verdict, KEYSETS[c.ks], c.now as i128 - c.time as i128, c.fudge);
+    // E1: the zone changed
+    if obs.changed && !accepted_by_ref {
+        let key = if is_plain(&c.class) || c.class.ends_with("(valid)") {
+            format!("update-took-effect-without-valid-tsig:{}:{}", c.class, time_scene(c.now, c.time, c.fudge))
+        } else {
+            format!("update-took-effect-without-valid-tsig:{}", key_scene(&c.class))
+        };
+        l.violation(&key, &format!("the zone changed although the request does not carry a valid, timely TSIG of a configured key ({scene}); {}", why()), || c.json());
+    }
+    // E2: zone data in the reply
+    if answers > 0 {
+        if is_axfr {
+            match c.policy {
+                0 => l.violation("axfr-data-under-deny-policy", &format!("{answers} answer records returned for an AXFR although the policy is Deny ({scene})"), || c.json()),
+                2 if !accepted_by_ref => {
+                    let key = if is_plain(&c.class) || c.class.ends_with("(valid)") {
+                        format!("axfr-data-without-valid-tsig:{}:{}", c.class, time_scene(c.now, c.time, c.fudge))
+                    } else {
+                        format!("axfr-data-without-valid-tsig:{}", key_scene(&c.class))
+                    };
+                    l.violation(&key, &format!("{answers} zone records returned under the signed-only policy although the request does not carry a valid, timely TSIG of a configured key ({scene}); {}", why()), || c.json());
+                }
+                _ => {}
+            }
+        } else if opcode == Some(0) {
+            // the mutation turned the request into an ordinary query: public data, not judged
+            l.outcome("obs:mutant-is-an-ordinary-query-and-was-answered");
+        } else {
+            l.violation("zone-data-in-reply-to-a-non-query", &format!("{answers} answer records in the reply to a request with opcode {opcode:?} ({scene})"), || c.json());
+        }
+    }
+    if let Some(rs) = &obs.replies {
+        for r in rs {
+            if let Ok(h) = wire::read_header(r) {
+                l.outcome(&format!("rcode:{}", ru::rcode_name(h.rcode_low())));
+            }
+        }
+    } else {
+        l.outcome("request-bytes-not-a-request");
+    }
+    // E4: an accepted exchange is answered with a verifiable signature
+    let took_effect = obs.changed || (is_axfr && c.policy == 2 && answers > 0);
+    if took_effect && accepted_by_ref && c.now < (1u64 << 48) - 400 {
+        let rs = obs.replies.clone().unwrap_or_default();
+        let Some(reply) = rs.first().cloned() else {
+            l.violation("accepted-request-not-answered", "the request took effect but no reply was sent", || c.json());
+            return None;
+        };
+        let req_mac = rt::split(&c.bytes).map(|s| s.tsig.mac).unwrap_or_default();
+        let key = &keys[verdict.clone().unwrap()];
+        match rt::verify_response(&reply, key, c.now, &req_mac) {
+            Ok(()) => l.outcome("accepted:reply-verifies-with-reference"),
+            Err(e) => l.violation(
+                &format!("accepted-reply-not-verifiable:{}", slug(&format!("{e:?}")).split('-').take(2).collect::<Vec<_>>().join("-")),
+                &format!("the reply to an accepted request does not verify with the reference verifier: {e:?} ({scene})"),
+                || {
+                    let mut j = c.json();
+                    j["reply_hex"] = json!(hex::enc(&reply));
+                    j
+                },
+            ),
+        }
+        // the honest client's verifier (it knows the honest request's MAC and time)
+        let honest_mac = rt::split(&honest(c.kind, c.alg, c.fudge, c.time)).map(|s| s.tsig.mac).unwrap_or_default();
+        if honest_mac == req_mac && key.name == rt::labels_of("k1.") && (c.now as i128 - c.time as i128).abs() > 300 {
+            // the server signs its reply with its own configured fudge (300): a client whose clock
+            // is further away cannot accept it whatever the server does (not judged)
+            l.outcome("obs:accepted-with-client-clock-beyond-the-server-fudge");
+        } else if honest_mac == req_mac && key.name == rt::labels_of("k1.") {
+            let mut v = client_verifier(c.kind, c.alg, c.fudge, c.time);
+            match catch(|| v.verify(&reply)) {
+                Err(p) => l.violation(&panic_key("client", &p.msg, &p.loc), &format!("the client-side verifier panicked on the server's reply: {}", p.msg), || c.json()),
+                Ok(Ok(_)) => l.outcome("accepted:reply-verifies-with-client-verifier"),
+                Ok(Err(e)) => l.violation(&format!("accepted-reply-rejected-by-client-verifier:{}", if c.now as i128 == c.time as i128 - c.fudge as i128 { "server-clock=time-signed-minus-fudge" } else { "elsewhere-in-window" }), &format!("the client-side TSigVerifier rejects the server's reply to an accepted request: {e} ({scene}; now - time signed = {})", c.now as i128 - c.time as i128), || {
+                    let mut j = c.json();
+                    j["reply_hex"] = json!(hex::enc(&reply));
+                    j
+                }),
+            }
+            return Some((reply, req_mac));
+        }
+    }
+    None
+}
+
+/// Reply side: every single-bit flip / byte substitution / truncation of the reply to an honest,
+/// accepted exchange is fed to a fresh client-side verifier.
+fn run_reply_mutants(c: &Case, reply: &[u8], req_mac: &[u8], l: &mut Local) {
+    let key = Key::new("k1.", c.alg, vupd::KEY1);
+    let reg = Regions::of(reply);
+    let mut ms: Vec<(String, Vec<u8>)> = vec![];
+    for i in 0..reply.len() {
+        for bit in 0..8u8 {
+            let mut b = reply.to_vec();
+            b[i] ^= 1 << bit;
+            let r = reg.at(i);
+            ms.push((if r == "header.flags" { format!("bit-flip@header.flags.{}", flag_bit_name(i, bit)) } else { format!("bit-flip@{r}") }, b));
+        }
+        for v in [0x00u8, 0xff] {
+            if reply[i] != v {
+                let mut b = reply.to_vec();
+                b[i] = v;
+                ms.push((format!("byte-sub@{}", reg.at(i)), b));
+            }
+        }
+    }
+    for n in 0..reply.len() {
+        ms.push((format!("truncate@{}", reg.at(n)), reply[..n].to_vec()));
+    }
+    let mut b = reply.to_vec();
+    b.push(0);
+    ms.push(("extend:bytes-after-tsig".into(), b));
+    for (class, bytes) in ms {
+        l.eval();
+        let mut v = client_verifier(c.kind, c.alg, c.fudge, c.time);
+        let got = catch(|| v.verify(&bytes).is_ok());
+        let want = rt::verify_response(&bytes, &key, c.time, req_mac);
+        let wit = || {
+            let mut j = c.json();
+            j["reply_mutation"] = json!(class);
+            j["reply_hex"] = json!(hex::enc(&bytes));
+            j
+        };
+        match got {
+            Err(p) => l.violation(&panic_key("client", &p.msg, &p.loc), &format!("the client-side verifier panicked on a modified reply ({class}): {}", p.msg), wit),
+            Ok(true) if want.is_err() => l.violation(
+                &format!("modified-reply-accepted:{}:{}", if c.kind.is_update() { "update" } else { "axfr" }, key_scene(&class)),
+                &format!("the client-side TSigVerifier accepts a modified reply ({class}) that the reference verifier rejects: {want:?}"),
+                wit,
+            ),
+            Ok(true) => l.outcome("reply-mutant:accepted-by-both"),
+            Ok(false) if want.is_ok() => l.outcome("reply-mutant:rejected-by-client-only(allowed)"),
+            Ok(false) => l.outcome("reply-mutant:rejected"),
+        }
+    }
+}
+
+// ------------------------------------------------------------------------------------------
+// the declared space
+
+const T0: u64 = 1_700_000_000;
+
+fn window_offsets(f: u16) -> Vec<i128> {
+    let f = f as i128;
+    let mut v = vec![-f - 2, -f - 1, -f, -f + 1, -1, 0, 1, f - 1, f, f + 1, f + 2];
+    v.sort();
+    v.dedup();
+    v
+}
+
+/// Offsets at the arithmetic boundaries of every integer width involved.
+fn boundary_offsets(f: u16) -> Vec<i128> {
+    let f = f as i128;
+    let mut v = vec![];
+    for base in [1i128 << 15, 1 << 16, 1 << 17, 1 << 31, 1 << 32, 1 << 33] {
+        for d in [0, 1, -1, f, -f, f + 1, -f - 1] {
+            v.push(base + d);
+            v.push(-(base + d));
+        }
+    }
+    v.sort();
+    v.dedup();
+    v
+}
+
+/// (time signed, server now) pairs for honest requests with a VALID MAC.
+fn clock_grid(f: u16, thorough: bool) -> Vec<(u64, u64)> {
+    let mut v: Vec<(u64, u64)> = vec![];
+    let mut push = |t: i128, n: i128| {
+        if t >= 0 && t < (1i128 << 48) && n >= 0 && n < (1i128 << 63) {
+            v.push((t as u64, n as u64));
+        }
+    };
+    let ff = f as i128;
+    // ordinary time and a time above 2^33 (so that every negative boundary offset fits)
+    for t in [T0 as i128, (1i128 << 33) + 12_345] {
+        for o in window_offsets(f).into_iter().chain(boundary_offsets(f)) {
+            push(t, t + o);
+        }
+    }
+    // time signed near 0 (time - fudge underflows), near 2^16, 2^32 and the 48-bit maximum
+    let mut ts: Vec<i128> = vec![0, 1, ff - 1, ff, ff + 1, 2 * ff + 1, (1 << 16) - 1, 1 << 16, (1 << 32) - 1, 1 << 32, (1 << 32) + 1, (1 << 48) - 1, (1 << 48) - 1 - ff, (1 << 48) - 2 - ff];
+    if thorough {
+        ts.extend([(1 << 31) - 1, 1 << 31, (1 << 47) - 1, 1 << 47]);
+    }
+    for t in ts {
+        let mut offs = window_offsets(f);
+        offs.extend([1 << 16, -(1 << 16), 1 << 32, -(1 << 32), (1 << 32) + ff, -(1 << 32) - ff]);
+        if thorough {
+            offs.extend(boundary_offsets(f));
+        }
+        for o in offs {
+            push(t, t + o);
+        }
+        // the server clock at 0 / at the time itself whatever the window
+        push(t, 0);
+    }
+    v.sort();
+    v.dedup();
+    v
+}
+
+struct Group {
+    kind: Kind,
+    alg: Alg,
+    fudge: u16,
+}
+
+fn main() {
+    let ctx = Ctx::from_args("C13", "fault_enumeration");
+    let thorough = !ctx.quick();
+
+    if let Some((_key, case)) = ctx.replay_case() {
+        let mut w = Worker::new();
+        let c = Case::from_json(&case);
+        ctx.with_local(|l| {
+            let r = run_case(&mut w, &c, l);
+            if let (Some((reply, mac)), Some(rm)) = (r, case["reply_mutation"].as_str()) {
+                let _ = rm;
+                run_reply_mutants(&c, &reply, &mac, l);
+            }
+        });
+        ctx.finish(false);
+    }
+
+    let kinds = [Kind::UpdAdd, Kind::UpdDelName, Kind::UpdPrereq, Kind::Axfr];
+    let mut groups: Vec<Group> = vec![];
+    for kind in kinds {
+        for fudge in [0u16, 1, 300] {
+            groups.push(Group { kind, alg: Alg::Sha256, fudge });
+        }
+        // algorithm sub-grid
+        for alg in [Alg::Sha384, Alg::Sha512] {
+            if thorough || kind == Kind::UpdAdd || kind == Kind::Axfr {
+                groups.push(Group { kind, alg, fudge: 300 });
+            }
+        }
+        if thorough {
+            groups.push(Group { kind, alg: Alg::Sha256, fudge: 65535 });
+        }
+    }
+    ctx.set("groups", json!(groups.iter().map(|g| format!("{}/{}/fudge={}", g.kind.name(), alg_name(g.alg), g.fudge)).collect::<Vec<_>>()));
+    ctx.set_rule(
+        "honest requests = {UPDATE add A, UPDATE delete name, UPDATE with 2 prerequisites, AXFR} signed by the real client signer with key k1 \
+         (HMAC-SHA256; sub-grid SHA384/SHA512), fudge in {0,1,300} (thorough: 65535). Part A (byte level, time signed = 1.7e9): EVERY single-bit \
+         flip of every byte, every byte substituted by {00,01,7f,80,ff}, EVERY truncation, extensions, every section count set to {-1,+1,0,65535}, \
+         structural TSIG edits re-encoded with the original MAC (key name, algorithm, time, fudge, every MAC length 0..len+2, original id, error, \
+         other data, RR class/TTL, record after TSIG, second TSIG, TSIG outside the additional section, TSIG stripped) and MACs recomputed (by k2, \
+         by k2 claiming k1, with response-style chaining, by an independent RFC 8945 signer) x server clock - time signed in {-F-2..-F+1,-1,0,1, \
+         F-1..F+2} x configured key sets {k1},{k1,k2},{k2},{},{k1 with another algorithm} x AXFR policies {Deny, AllowAll, AllowSigned} (AXFR \
+         requests; UPDATE-derived mutants run under AllowSigned). Part B (valid MAC, clock arithmetic): the unmodified requests x (time signed, \
+         server clock) with time signed in {1.7e9, 2^33+k, 0, 1, F-1, F, F+1, 2F+1, 2^16-1, 2^16, 2^32-1, 2^32, 2^32+1, 2^48-1-F, 2^48-1, ...} and \
+         clock - time signed in the window set plus +-(2^15, 2^16, 2^17, 2^31, 2^32, 2^33) +- {0, 1, F, F+1}. Part C (reply side): every single-bit \
+         flip, byte substitution {00,ff}, truncation and extension of the reply to every honest accepted exchange, fed to a fresh client-side \
+         TSigVerifier. Oracle: effect (zone changed / AXFR answers under AllowSigned) only if vref::tsig accepts the mutated bytes under the \
+         configured keys at that clock; no AXFR data under Deny; accepted => reply verifies with the reference and with the client verifier; \
+         modified reply accepted by the client only if the reference accepts it; no panic. Non-trivial = distinct (bytes, key set, clock) that \
+         still parse as a message with a correctly placed trailing TSIG.",
+    );
+    ctx.assume("ring's HMAC is correct; vref::tsig (RFC 8945 4.3.3 digest from the raw bytes) is the reference for 'carries a valid, timely TSIG'");
+    ctx.assume("the handler keeps no state besides the record store: the store content is put back after a request that changed it");
+    ctx.assume("a mutant that an independent reader sees as an ordinary QUERY (opcode 0, not AXFR) is outside the statement's input class (public data may be answered)");
+
+    // ---- part A + B: one task per (group, part, slice)
+    struct Task {
+        g: usize,
+        part: u8,
+        slice: usize,
+        slices: usize,
+    }
+    let mut tasks = vec![];
+    for (gi, _) in groups.iter().enumerate() {
+        let slices = 16;
+        for s in 0..slices {
+            tasks.push(Task { g: gi, part: 0, slice: s, slices });
+        }
+        tasks.push(Task { g: gi, part: 1, slice: 0, slices: 1 });
+    }
+    let accepted_honest: std::sync::Mutex<Vec<(Case, Vec<u8>, Vec<u8>)>> = std::sync::Mutex::new(vec![]);
+    ctx.par_run_init(
+        tasks.len() as u64,
+        1,
+        |_| Worker::new(),
+        |i, l, w| {
+            let t = &tasks[i as usize];
+            let g = &groups[t.g];
+            let policies: Vec<u8> = if g.kind.is_update() { vec![2] } else { vec![0, 1, 2] };
+            if t.part == 0 {
+                let h = honest(g.kind, g.alg, g.fudge, T0);
+                let mut ms = vec![Mutant { class: "identity".into(), bytes: h.clone() }];
+                byte_mutants(&h, &mut ms);
+                structural_mutants(&h, g.alg, g.fudge, T0, &mut ms);
+                if t.slice == 0 {
+                    l.outcome_sample("sample:honest-request", || json!({"group": format!("{}/{}/fudge={}", g.kind.name(), alg_name(g.alg), g.fudge), "bytes": hex::enc(&h), "mutants": ms.len()}));
+                }
+                let offs = window_offsets(g.fudge);
+                for (mi, m) in ms.iter().enumerate() {
+                    if mi % t.slices != t.slice {
+                        continue;
+                    }
+                    // byte-level mutants of the sub-grid algorithms / quick tier: the two key sets that hold k1 plus one without
+                    let keysets: Vec<usize> = if thorough || m.class.starts_with("tsig-") || m.class.starts_with("resigned") || m.class.starts_with("unsigned") || m.class == "identity" {
+                        (0..KEYSETS.len()).collect()
+                    } else {
+                        vec![0, 1, 2]
+                    };
+                    for &ks in &keysets {
+                        for &p in &policies {
+                            for o in &offs {
+                                let now = (T0 as i128 + o) as u64;
+                                let c = Case { kind: g.kind, alg: g.alg, fudge: g.fudge, time: T0, now, ks, policy: p, class: m.class.clone(), bytes: m.bytes.clone() };
+                                if let Some((reply, mac)) = run_case(w, &c, l) {
+                                    if m.class == "identity" && *o == 0 && ks == 0 {
+                                        accepted_honest.lock().unwrap().push((c, reply, mac));
+                                    }
+                                }
+                            }
+                        }
+                    }
+                }
+            } else {
+                // part B: valid MAC, clock arithmetic; executed twice (determinism self-test)
+                let mut digests = vec![];
+                for pass in 0..2 {
+                w.dig = 0;
+                let mut scratch = Local::default();
+                let l: &mut Local = if pass == 0 { &mut *l } else { &mut scratch };
+                for (time, now) in clock_grid(g.fudge, thorough) {
+                    let h = honest(g.kind, g.alg, g.fudge, time);
+                    for &p in &policies {
+                        if p == 1 {
+                            continue;
+                        }
+                        for ks in [0usize, 1] {
+                            let c = Case { kind: g.kind, alg: g.alg, fudge: g.fudge, time, now, ks, policy: p, class: "identity".into(), bytes: h.clone() };
+                            l.outcome(&format!("clock:{}", time_scene(now, time, g.fudge)));
+                            run_case(w, &c, l);
+                        }
+                    }
+                }
+                digests.push(w.dig);
+                }
+                l.outcome("selftest-rerun");
+                if digests[0] != digests[1] {
+                    l.outcome("machinery:selftest-mismatch");
+                }
+            }
+        },
+    );
+
+    // ---- part C: reply side
+    let mut acc = accepted_honest.into_inner().unwrap();
+    acc.sort_by_key(|(c, _, _)| (c.kind.name(), alg_name(c.alg), c.fudge, c.policy));
+    ctx.set("honest_accepted_exchanges_for_reply_mutation", json!(acc.len()));
+    ctx.par_run(acc.len() as u64, 1, |i, l| {
+        let (c, reply, mac) = &acc[i as usize];
+        run_reply_mutants(c, reply, mac, l);
+        l.outcome_sample("sample:honest-reply", || json!({"case": c.json(), "reply": hex::enc(reply)}));
+    });
+
+    for class in [
+        "reference-accepts:took-effect",
+        "reference-rejects:no-effect",
+        "ref:bad-sig",
+        "ref:bad-time",
+        "ref:bad-key",
+        "ref:mac-length",
+        "ref:misplaced-tsig",
+        "ref:no-trailing-tsig",
+        "accepted:reply-verifies-with-reference",
+        "accepted:reply-verifies-with-client-verifier",
+        "reply-mutant:rejected",
+        "clock:far-outside-window(>=2^15)",
+        "clock:inside-window",
+    ] {
+        if ctx.outcome_count(class) == 0 {
+            ctx.machinery_failure(&format!("vacuous run: outcome class {class} never exercised"));
+        }
+    }
+    if ctx.outcome_count("machinery:selftest-mismatch") > 0 || ctx.outcome_count("selftest-rerun") == 0 {
+        ctx.machinery_failure("determinism self-test failed or did not run");
+    }
+    if acc.is_empty() {
+        ctx.machinery_failure("vacuous run: no honest exchange was accepted");
+    }
+    ctx.finish(true);
+}
